@@ -79,6 +79,7 @@ fn self_exe() -> String {
 // ---------------------------------------------------------------- executor child
 
 pub struct Executor {
+    isolated: bool,
     id: String,
     child: Option<(Child, ChildStdin, BufReader<ChildStdout>)>,
     pub executions: u64,
@@ -86,7 +87,7 @@ pub struct Executor {
 
 impl Executor {
     pub fn new(id: &str) -> Self {
-        Executor { id: id.to_string(), child: None, executions: 0 }
+        Executor { isolated: find_prop(id).map(|p| p.isolated()).unwrap_or(false), id: id.to_string(), child: None, executions: 0 }
     }
     fn ensure(&mut self) {
         if self.child.is_none() {
@@ -94,7 +95,7 @@ impl Executor {
                 .args(["serve", &self.id, "--cpu", "0"])
                 .stdin(Stdio::piped())
                 .stdout(Stdio::piped())
-                .stderr(Stdio::null())
+                .stderr(if self.isolated { Stdio::piped() } else { Stdio::null() })
                 .spawn()
                 .expect("cannot spawn executor");
             let i = c.stdin.take().unwrap();
@@ -124,13 +125,41 @@ impl Executor {
                     }
                 }
                 _ => {
-                    // child died (recycle exit or crash): restart and retry
+                    // child died (recycle exit or crash)
+                    if self.isolated {
+                        let (status, tail) = self.reap();
+                        if !status.contains("17") {
+                            let kind = crate::props::c03::death_signature(&status, &tail);
+                            let sig = format!("{}:{}:{}", kind, scn["target"].as_str().unwrap_or("?"), crate::props::c03::case_feature(scn));
+                            let mut r = RunResult::default();
+                            r.violate(&format!("{}/R1", self.id), sig, format!("executor process died ({}) on this scenario; stderr tail: {}", status, tail.replace('\n', " | ")));
+                            return r;
+                        }
+                        continue;
+                    }
                     self.kill();
                     continue;
                 }
             }
         }
         RunResult { harness_error: Some("executor child died repeatedly on this scenario".into()), ..Default::default() }
+    }
+    /// Wait for a dead child; returns (status text, stderr tail).
+    fn reap(&mut self) -> (String, String) {
+        if let Some((mut c, i, _)) = self.child.take() {
+            drop(i);
+            let mut tail = String::new();
+            if let Some(mut e) = c.stderr.take() {
+                use std::io::Read;
+                let mut buf = Vec::new();
+                let _ = e.read_to_end(&mut buf);
+                let t = String::from_utf8_lossy(&buf).to_string();
+                tail = t.chars().rev().take(600).collect::<String>().chars().rev().collect();
+            }
+            let st = c.wait().map(|s| format!("{:?}", s)).unwrap_or_default();
+            return (st, tail);
+        }
+        (String::new(), String::new())
     }
     pub fn kill(&mut self) {
         if let Some((mut c, i, _)) = self.child.take() {
@@ -205,6 +234,7 @@ pub fn check(id: &str, tier: Tier, seed: u64, jobs: usize, max_runs: Option<u64>
     for w in 0..jobs {
         let (summary, found, samples, errors, recycles) = (summary.clone(), found.clone(), samples.clone(), errors.clone(), recycles.clone());
         let id = id.to_string();
+        let isolated = prop.isolated();
         handles.push(std::thread::spawn(move || {
             let mut start = w as u64;
             let t_start = Instant::now();
@@ -232,6 +262,20 @@ pub fn check(id: &str, tier: Tier, seed: u64, jobs: usize, max_runs: Option<u64>
                 let out = BufReader::new(child.stdout.take().unwrap());
                 let mut next: Option<u64> = None;
                 let mut got_summary = false;
+                let mut announced_idx: Option<u64> = None;
+                let mut announced_case: Option<u64> = None;
+                // drain stderr concurrently so a chatty child cannot block on a full pipe
+                let err_pipe = child.stderr.take();
+                let err_thread = std::thread::spawn(move || {
+                    let mut t = String::new();
+                    if let Some(mut e) = err_pipe {
+                        use std::io::Read;
+                        let mut buf = Vec::new();
+                        let _ = e.read_to_end(&mut buf);
+                        t = String::from_utf8_lossy(&buf).to_string();
+                    }
+                    t
+                });
                 for line in out.lines() {
                     let line = match line {
                         Ok(l) => l,
@@ -260,13 +304,14 @@ pub fn check(id: &str, tier: Tier, seed: u64, jobs: usize, max_runs: Option<u64>
                         }
                     } else if let Some(rest) = line.strip_prefix("R ") {
                         next = rest.trim().parse().ok();
+                    } else if let Some(rest) = line.strip_prefix("A ") {
+                        announced_idx = rest.trim().parse().ok();
+                        announced_case = None;
+                    } else if let Some(rest) = line.strip_prefix("C ") {
+                        announced_case = rest.trim().parse().ok();
                     }
                 }
-                let mut err_text = String::new();
-                if let Some(mut e) = child.stderr.take() {
-                    use std::io::Read;
-                    let _ = e.read_to_string(&mut err_text);
-                }
+                let err_text = err_thread.join().unwrap_or_default();
                 let status = child.wait().ok();
                 let code = status.and_then(|s| s.code());
                 match (code, next) {
@@ -276,6 +321,23 @@ pub fn check(id: &str, tier: Tier, seed: u64, jobs: usize, max_runs: Option<u64>
                         continue;
                     }
                     (Some(0), _) if got_summary => break,
+                    _ if isolated && announced_idx.is_some() && code != Some(0) && code != Some(17) => {
+                        // the worker died inside an announced case: that is a finding about the case
+                        let idx = announced_idx.unwrap();
+                        let tail: String = err_text.chars().rev().take(600).collect::<String>().chars().rev().collect();
+                        let kind = crate::props::c03::death_signature(&format!("{:?}", status), &tail);
+                        let mut scn = find_prop(&id).map(|p| p.generate(seed, idx, tier)).unwrap_or(Value::Null);
+                        if let Some(c) = announced_case {
+                            scn["only_case"] = json!(c);
+                        }
+                        let sig = format!("{}:{}:{}", kind, scn["target"].as_str().unwrap_or("?"), crate::props::c03::case_feature(&scn));
+                        let mut r = RunResult::default();
+                        r.violate(&format!("{}/R1", id), sig, format!("worker process died ({:?}) while running run {} case {:?}; stderr tail: {}", status, idx, announced_case, tail.replace('\n', " | ")));
+                        found.lock().unwrap().push(Found { idx, result: r, scenario: scn });
+                        *recycles.lock().unwrap() += 1;
+                        start = idx + jobs as u64;
+                        continue;
+                    }
                     _ => {
                         let tail: String = err_text.chars().rev().take(1500).collect::<String>().chars().rev().collect();
                         errors.lock().unwrap().push(format!("worker {} (start {}) died: status {:?}; stderr tail: {}", w, start, status, tail));
